@@ -53,7 +53,7 @@ From Coq Require Import List NArith String.
 From GV Require Import Base.Ints Gen.Math Gen.Kernel Model.Mirror Model.MirrorMgr
   Proofs.MirrorChain Proofs.MirrorCert Proofs.MirrorTotal Proofs.MirrorActTotal
   Proofs.MirrorResumeWit Proofs.MirrorResumeInv Proofs.MirrorResumeOps Proofs.MirrorResume
-  Proofs.MirrorTotalX Proofs.MirrorTotalM Proofs.MirrorTotalXEx.
+  Proofs.MirrorLog Proofs.MirrorTotalX Proofs.MirrorTotalM Proofs.MirrorTotalK Proofs.MirrorTotalXEx.
 Import ListNotations.
 Local Open Scope N_scope.
 
@@ -248,6 +248,28 @@ Theorem C09X_kernel_state_after_mstep : forall s o s' r io, mstep s o = Ok (s', 
   end.
 Proof. exact mstep_kernel_exact. Qed.
 Print Assumptions C09X_kernel_state_after_mstep.
+
+(** a local action that returns Ok either is DROPPED - the kernel state is exactly what it was - or issues at
+    least one store write ([wrote s s' := exists w ws, st_log s' = st_log s ++ w :: ws], so [s' <> s]); which
+    of the two is the boolean [lact_applies]: a vote is applied iff the entered round is the voting or the
+    committing view, the state machine's key is in that view's validator set and the signature verifies under
+    it; a proposed header iff its (height, round) is one of the three views and that view holds no header
+    with the same signature *)
+Theorem C09X_local_action_changes_kernel_state_iff_applied : forall s h r key a s',
+  act_step s h r key a = Ok s' ->
+  if lact_applies s h r key a then wrote s s' /\ s' <> s else s' = s.
+Proof.
+  intros s h r key a s' H. pose proof (local_action_effect s h r key a s' H) as G.
+  destruct (lact_applies s h r key a); [split; [exact G|apply wrote_neq; exact G]|exact G].
+Qed.
+Print Assumptions C09X_local_action_changes_kernel_state_iff_applied.
+
+(** a kernel message that returns Ok only ever appends store writes (possibly none) *)
+Theorem C09X_message_only_appends_writes : forall s o s' res,
+  step s o = Ok (s', res) ->
+  exists ws, st_log s' = st_log s ++ ws /\ stores_of s' = fold_left apply_wr ws (stores_of s).
+Proof. exact message_effect. Qed.
+Print Assumptions C09X_message_only_appends_writes.
 
 (** * (4) examples *)
 
